@@ -23,6 +23,8 @@ func init() {
 		Run:      runC20,
 		Thorough: thoroughC20,
 		Mutants: []Mutant{
+			{Name: "status-copy-made-after-unlock", File: "internal/layer2/announcer.go",
+				Old: "\ta.RLock()\n\tdefer a.RUnlock()\n\tadvs := a.ips[meta.String()]\n", New: "\ta.RLock()\n\tadvs := a.ips[meta.String()]\n\ta.RUnlock()\n", Expect: "LOCK-LEAK"},
 			{Name: "register-raw-handler", File: "internal/k8s/k8s.go",
 				Old: "\t\t\tHandler:           cfg.ServiceHandler,", New: "\t\t\tHandler:           cfg.ServiceChanged,", Expect: "LOCK-ENTRY"},
 			{Name: "wrapper-without-unlock-defer", File: "internal/k8s/listener.go",
